@@ -2,7 +2,7 @@
    Statements only; each closed by [exact] of a lemma proved in Json/*P.v. *)
 From Coq Require Import List NArith ZArith.
 From PB Require Import Base.PBytes Json.JsonGrammar Json.JsonNumModel Json.JsonNumP Json.JsonIntP
-  Json.JsonLexModel Json.JsonLexP Json.JsonEncModel Json.JsonScalarModel Json.JsonScalarP Json.JsonB64P Json.JsonB64VarP Json.JsonInt64P.
+  Json.JsonLexModel Json.JsonLexP Json.JsonEncModel Json.JsonScalarModel Json.JsonScalarP Json.JsonB64P Json.JsonB64VarP Json.JsonB64IffP Json.JsonInt64P.
 Import ListNotations.
 Open Scope N_scope.
 
@@ -147,6 +147,31 @@ Theorem C22_bytes_base64_accepts_all_variants :
 Proof. exact bytes_base64_accepts_all_variants. Qed.
 Print Assumptions C22_bytes_base64_accepts_all_variants.
 
+(* ... and nothing else: for strings without CR/LF (which encoding/base64 skips anywhere),
+   unmarshalBytes accepts s with result b iff s is a base64 text denoting b ([b64_text]: full
+   quanta of four alphabet characters, then optionally a final quantum of 2 or 3 characters,
+   completed by '=' iff padding is in force) in the variant it selects: URL-safe alphabet iff
+   s contains '-' or '_', padded iff the length of s is a multiple of four. *)
+Theorem C22_bytes_base64_accepts_iff :
+  forall tok b, t_kind tok = KString -> no_nl (t_str tok) ->
+    (unmarshal_bytes tok = Some b <->
+     b64_text (has_url_char (t_str tok)) (Nat.eqb (Nat.modulo (length (t_str tok)) 4) 0) (t_str tok) b).
+Proof. exact bytes_base64_accepts_iff. Qed.
+Print Assumptions C22_bytes_base64_accepts_iff.
+
+(* consequences for rejection: every character of an accepted string is in the selected
+   alphabet (or is padding when padding is in force); unpadded texts never have length 1 mod 4 *)
+Theorem C22_bytes_base64_text_chars :
+  forall url pad s b, b64_text url pad s b ->
+    Forall (fun c => b64_val url c <> None \/ (pad = true /\ c = c_pad)) s.
+Proof. exact b64_text_chars. Qed.
+Print Assumptions C22_bytes_base64_text_chars.
+
+Theorem C22_bytes_base64_text_length_raw :
+  forall url s b, b64_text url false s b -> (length s mod 4 <> 1)%nat.
+Proof. exact b64_text_length_raw. Qed.
+Print Assumptions C22_bytes_base64_text_length_raw.
+
 (* non-vacuity: notations of 100 into int32, and both F6 witnesses are in the class *)
 Example C22_ex_1e2 :
   decode_int 32 true ["1"; "e"; "2"]%byte = Some 100%Z /\
@@ -173,7 +198,11 @@ Example C22_ex_bytes :
   unmarshal_bytes (C22_str_tok ["Q"; "U"; "I"; "="]%byte) = Some ["A"; "B"]%byte /\
   unmarshal_bytes (C22_str_tok ["Q"; "U"; "I"]%byte) = Some ["A"; "B"]%byte /\
   unmarshal_bytes (C22_str_tok ["-"; "_"; "8"]%byte) = Some [xfb; xff]%byte /\
-  unmarshal_bytes (C22_str_tok ["Q"; "="]%byte) = None.
+  unmarshal_bytes (C22_str_tok ["Q"; "="]%byte) = None /\
+  unmarshal_bytes (C22_str_tok ["Q"; "U"; "I"; "!"]%byte) = None /\
+  unmarshal_bytes (C22_str_tok ["Q"; "U"; "I"; "D"; "Q"]%byte) = None /\
+  b64_encode_variant true false [xfb; xff]%byte = ["-"; "_"; "8"]%byte /\
+  no_nl ["Q"; "U"; "I"; "="]%byte.
 Proof. vm_compute. repeat split. Qed.
 Example C22_ex_enum :
   let values := [(["F"; "O"; "O"]%byte, 0%Z); (["B"; "A"; "R"]%byte, 1%Z)] in
